@@ -24,7 +24,7 @@ var c12Routes = []string{
 	// route shapes that a path-cleaning builder would alter: trailing slash, dot segments
 	"/d/{x}/", "/d/", "/./{x}", "/{x}/../{y}", "/d/./e/{x}/..", "/d/{x}/?",
 	// an optional last segment after binds that carry annotations (expression, capture limit)
-	"/u/{y: /[0-9]+/}/?e", "/f/{m: **, capture: 3}/r/?d", "/{y: /a+/, z: /b+/}/?{o}", "/u/{y: /[0-9]+/}/?{o: /e+/}",
+	"/t/{name}/{withOptional}", "/u/{y: /[0-9]+/}/?e", "/f/{m: **, capture: 3}/r/?d", "/{y: /a+/, z: /b+/}/?{o}", "/u/{y: /[0-9]+/}/?{o: /e+/}",
 }
 
 var c12Values = []string{"\x00absent", "v", "", "{x}", "{y}", "{self}", "a/b", "}", "{", "%2F", "x y", "v/y/v"}
@@ -60,6 +60,11 @@ func c12Leaf(cr catRoute) (route.Leaf, bool) {
 }
 
 func c12Forward(cr catRoute, api string, vals map[string]string, extra []string, withOpt string) (bad string) {
+	for _, b := range cr.Ref.Binds() {
+		if b == "withOptional" && withOpt != "" {
+			return "" // a bind that carries the reserved name: only builds without the reserved pair are defined
+		}
+	}
 	want := cr.Ref.BuildURL(vals, withOpt == "true")
 	var got string
 	var pan interface{}
@@ -230,6 +235,9 @@ func c12Sequence(cr catRoute, l *core.Local) (first string) {
 			}
 			vals := c12ValsOf(binds, idx)
 			for _, wo := range []string{"", "true"} {
+				if wo != "" && strings.Contains(cr.Text, "{withOptional}") {
+					continue // the bind carries the reserved name: only builds without the reserved pair are defined
+				}
 				// pairs in bind order (deterministic), so that equal joined texts can collide
 				var pairs []string
 				for _, b := range binds {
